@@ -257,7 +257,7 @@ func modeC11(e *Env) {
 		}
 		for s := 0; s <= maxS; s++ {
 			c := colDecimal(p, s)
-			for class := 0; class < 6; class++ {
+			for _, class := range []int{0, 1, 2, 3, 4, 5, 7} {
 				for _, neg := range []bool{false, true} {
 					d := genDecimalDigits(e.R, p, s, class)
 					if allZero(d) && neg {
@@ -274,6 +274,10 @@ func modeC11(e *Env) {
 				neg := e.R.Intn(2) == 0 && !allZero(d)
 				cellCase(e, f, c, decimalEncode(p, s, neg, d), "decimal-random")
 			}
+			// the same cell decoded twice from the same bytes: decoding must not consume or alter its input
+			d := genDecimalDigits(e.R, p, s, 6)
+			raw := decimalEncode(p, s, (p+s)%2 == 1 && !allZero(d), d)
+			cellPairCase(e, f, c, raw, raw, "decimal-twice")
 		}
 	}
 }
@@ -336,6 +340,13 @@ func modeC12(e *Env) {
 		}
 	}
 	cellCase(e, f, colTimestampOld(), []byte{0, 0, 0, 0}, "timestamp-zero")
+	// the first day of the epoch: west of Greenwich these instants are still in 1969 local time
+	for _, v := range []uint64{1, 2, 59, 3599, 3600, 3601, 17999, 18000, 18001, 28799, 28800, 36000, 43199, 43200, 86399, 86400, 86401} {
+		fsp := e.R.Intn(7)
+		nb, _ := fracStorage(fsp)
+		cellCase(e, f, colTimestampOld(), leN(v, 4), "timestamp-epoch-day")
+		cellCase(e, f, colTimestamp2(fsp), append(beN(v, 4), beN(uint64(genFrac(e.R, fsp)), nb)...), "timestamp2-epoch-day")
+	}
 	// pairs decoded back to back: same second / same day, different fractions (what a "last value" cache would share)
 	for i := 0; i < e.N(120, 3000); i++ {
 		fsp := 1 + e.R.Intn(6)
@@ -1369,7 +1380,8 @@ func modeC17a(e *Env) {
 	}
 	// structured classes: every length 0..64 x length field in {len-1, len, len+1, 0, 18, 19, 2^32-1} x some type bytes
 	for l := 0; l <= 64; l++ {
-		for _, lf := range []int64{int64(l) - 1, int64(l), int64(l) + 1, 0, 18, 19, 1<<32 - 1, int64(l) + 256, int64(l) + 65536, int64(l) + 1<<24} {
+		for _, lf := range []int64{int64(l) - 1, int64(l), int64(l) + 1, 0, 18, 19, 1<<32 - 1, int64(l) + 256, int64(l) + 65536, int64(l) + 1<<24,
+			int64(l) + 4, int64(l) - 4, int64(l) + 2, int64(l) + 3, int64(l) + 5, int64(l) + 8} {
 			for _, typ := range []byte{0, 2, 15, 16, 19, 255} {
 				buf := randBytes(e.R, l)
 				if l >= 5 {
